@@ -1,6 +1,7 @@
 import SpoxModel.Lemmas.Opset
 import SpoxModel.Lemmas.OpsetRename
 import SpoxModel.Lemmas.OpsetFuncs
+import SpoxModel.Lemmas.OpsetNames
 /-!
 # C09 — one opset per domain; mixed-version programs build and keep their meaning
 
@@ -413,6 +414,24 @@ theorem build_with_ignores_names (f : Nat → Nat) (extra : List Req) (g : PGrap
         (buildModelWith genFacts extra g).main.map Entry.view := by
   refine ⟨?_, adaptGraph_rename genFacts f extra g⟩
   simp only [buildModelWith, opsetsOf, reqGraph_rename]
+
+/-- Every application of a function is compiled in a scope of its own. Whatever its nodes are called there,
+    the function graph gets the same imports and, entry by entry, the same opsets and decisions: all
+    applications of one function yield one definition. -/
+theorem function_instances_agree (f : Nat → Nat) (imports : List Req) (fg : PGraph) :
+    opsetsOf genFacts imports (renameG f fg) = opsetsOf genFacts imports fg ∧
+      (adaptGraph genFacts imports (renameG f fg)).map Entry.view =
+        (adaptGraph genFacts imports fg).map Entry.view := by
+  refine ⟨?_, adaptGraph_rename genFacts f imports fg⟩
+  simp only [opsetsOf, reqGraph_rename]
+
+/-- The value names adaptation introduces are a function of the entries' node names and decisions alone —
+    no history, no process-wide counter: two applications of a function, compiled in equally named scopes
+    and adapted alike, define exactly the same names (so their FunctionProtos coincide). -/
+theorem adapted_names_deterministic (q : Bool) (nOut : Nat → Nat) (conv : Nat → List Nat) (es₁ es₂ : List Entry)
+    (h : es₁.map Entry.key = es₂.map Entry.key) :
+    allNames q nOut conv es₁ = allNames q nOut conv es₂ :=
+  allNames_key q nOut conv es₁ es₂ h
 
 /-- `_adapt.py` and `_graph.py` keep no state that outlives a build (and the other files a build passes through no
     mutable default argument, caching decorator or `global`): no module-level binding, no `global`,
